@@ -31,6 +31,15 @@
 #include "romea_core_common/diagnostic/DiagnosticReport.hpp"
 #include "romea_core_common/geodesy/GeodeticCoordinates.hpp"
 #include "romea_core_common/geodesy/WGS84Coordinates.hpp"
+#include "romea_core_common/geometry/Pose2D.hpp"
+#include "romea_core_common/geometry/Pose3D.hpp"
+#include "romea_core_common/geometry/PoseAndTwist2D.hpp"
+#include "romea_core_common/geometry/PoseAndTwist3D.hpp"
+#include "romea_core_common/geometry/Position2D.hpp"
+#include "romea_core_common/geometry/Twist2D.hpp"
+#include "romea_core_common/geometry/Twist3D.hpp"
+#include <cfenv>
+#include <locale>
 #include <iomanip>
 #include <optional>
 #include <sstream>
@@ -195,8 +204,8 @@ static bool hold(
   vh::Ctx & c, const char * oracle, bool cond, const char * kind,
   const std::function<vh::Params()> & params, const std::function<std::string()> & witness)
 {
-  if (cond) {++tally().oracles[oracle]; return true;}
-  return c.expect(oracle, false, kind, params, witness);
+  if (cond && c.caller_rounding == FE_TONEAREST) {++tally().oracles[oracle]; return true;}
+  return c.expect(oracle, cond, kind, params, witness);
 }
 static void cat(const char * name) {++tally().cats[name];}
 static void count(const char * name) {++tally().counters[name];}
@@ -207,6 +216,76 @@ static void flush_tally(vh::Ctx & c)
   for (auto & kv : tally().oracles) {if (kv.second) {c.margins[kv.first].n += kv.second;}}
   for (auto & kv : tally().cats) {if (kv.second) {c.cats[kv.first] += kv.second;}}
   for (auto & kv : tally().counters) {if (kv.second) {c.counters[kv.first] += kv.second;}}
+}
+
+// ------------------------------------------------------------------------------------------
+// Context of the info-value oracle.
+//  * after_library_printer: since the last evaluation the library's own printers (operator<< of
+//    WGS84 / geodetic coordinates, poses, twists, positions, Eigen matrices, bool ...) were run through
+//    the library's toStringInfoValue / setReportInfo on this thread; the next info value must still be
+//    what a fresh default-formatted stream prints (printf "%g").
+//  * locale case: std::locale::global is switched among classic, decimal-comma and decimal-comma with
+//    '.' grouping by 3 during the history; the expected info value is what a FRESH std::ostringstream
+//    constructed at the moment of evaluate() prints.  The classic locale is restored before the case ends.
+// ------------------------------------------------------------------------------------------
+static bool g_after_library_printer = false;
+static bool g_locale_case = false;
+static int g_locale_id = 0;
+
+struct CommaPunct : std::numpunct<char>
+{
+  char do_decimal_point() const override {return ',';}
+};
+struct CommaGroupPunct : std::numpunct<char>
+{
+  char do_decimal_point() const override {return ',';}
+  char do_thousands_sep() const override {return '.';}
+  std::string do_grouping() const override {return "\3";}
+};
+static const std::locale & locale_of(int id)
+{
+  static const std::locale L[3] = {std::locale::classic(), std::locale(std::locale::classic(), new CommaPunct),
+    std::locale(std::locale::classic(), new CommaGroupPunct)};
+  return L[id];
+}
+static void set_global_locale(int id)
+{
+  std::locale::global(locale_of(id));
+  g_locale_id = id;
+  static const char * LC[] = {"locale_classic_during_history", "locale_decimal_comma", "locale_decimal_comma_grouping"};
+  ++tally().cats[LC[id]];
+}
+struct LocaleCaseGuard
+{
+  ~LocaleCaseGuard()
+  {
+    if (g_locale_case || g_locale_id != 0) {std::locale::global(std::locale::classic());}
+    g_locale_case = false; g_locale_id = 0;
+  }
+};
+static void maybe_switch_locale(vh::Rng & r, double p, const char * where)
+{
+  if (g_locale_case && r.coin(p)) {set_global_locale((int)r.range(0, 2)); ++tally().cats[where];}
+}
+// every case with a small index starts under a non-classic global locale, so that the first evaluation
+// of every process (shard, replay) already runs under one; otherwise 6% of the sequences are locale cases
+static void begin_locale_case(vh::Ctx & c, vh::Rng & r)
+{
+  bool early = c.cur <= 256;
+  bool on = r.coin(0.06);
+  static const bool disabled = getenv("C18_NO_LOCALE_CASES") != nullptr;   // development aid: isolate the other info classes
+  g_locale_case = (early || on) && !disabled;
+  if (!g_locale_case) {return;}
+  ++tally().cats["locale_switched_during_history"];
+  if (early) {set_global_locale((int)r.range(1, 2)); ++tally().cats["locale_switched_before_first_evaluation_of_process"];} else {
+    maybe_switch_locale(r, 0.5, "locale_switched_before_construction");
+  }
+}
+// what the info entry must read for value v evaluated now
+template<class T> static std::string expected_info(const T & v)
+{
+  if (g_locale_case) {std::ostringstream fresh; fresh << v; return fresh.str();}
+  return Tr<T>::print(v);
 }
 
 struct Step {int op; LD value; int tag;};   // op 0 = evaluate, 1 = timeout
@@ -220,6 +299,10 @@ struct CaseDesc
   LD t = 0, e = 0, lo = 0, hi = 0, band = 0;
   bool exact = false;
   bool custom_initial = false;
+  // caller in a directed rounding mode and target -+ epsilon beyond the finite range: the library's
+  // threshold is then -+max (saturation) instead of -+inf, so a value of exactly -+max is ambiguous
+  bool sat = false; LD lo_sat = 0, hi_sat = 0;
+  mutable bool step_overflow_ambiguous = false;
   int ctor_mode = 0;
   uint64_t pre_n = 0;            // unobserved evaluations (cycling over pre_vals, a timeout every 97th) before the steps
   LD pre_vals[4] = {0, 0, 0, 0};
@@ -259,7 +342,8 @@ static vh::Params step_params(const StepObs & o)
     {"value", (double)o.v}, {d.kind == REL ? "low" : "target", (double)d.t},
     {d.kind == REL ? "high" : "epsilon", (double)d.e},
     {"value_minus_lower_threshold", (double)(o.v - d.lo)}, {"value_minus_upper_threshold", (double)(o.v - d.hi)},
-    {"step", (double)d.steps.size()}, {"exact_regime", d.exact ? 1.0 : 0.0}};
+    {"step", (double)d.steps.size()}, {"exact_regime", d.exact ? 1.0 : 0.0},
+    {"global_locale", (double)g_locale_id}, {"locale_case", g_locale_case ? 1.0 : 0.0}};
 }
 static std::string step_witness(const StepObs & o)
 {
@@ -272,7 +356,7 @@ static std::string step_witness(const StepObs & o)
   }
   if (!rep.info.empty()) {j.s("info_key", rep.info.begin()->first).s("info_value", rep.info.begin()->second);}
   if (o.printed) {j.s("expected_info", *o.printed);}
-  j.f("acceptable_verdicts", o.acc);
+  j.f("acceptable_verdicts", o.acc).f("global_locale_now", g_locale_id).boolean("locale_case", g_locale_case);
   return j.str();
 }
 
@@ -298,7 +382,10 @@ static void check_after_evaluate(
   bool st_ok;
   bool starts = dg.message.compare(0, d.name.size(), d.name) == 0;
   int announced = starts ? decode(d.kind, dg.status, dg.message.substr(d.name.size())) : 0;
-  if (amb) {
+  if (amb && d.step_overflow_ambiguous) {
+    c.skip("verdict:threshold_overflow_under_directed_rounding");
+    st_ok = hold(c, "verdict.in_band_consistent", fits, "verdict_mismatch", params, wit);
+  } else if (amb) {
     c.skip(VS[d.kind]);
     st_ok = hold(c, "verdict.in_band_consistent", fits, "verdict_mismatch", params, wit);
     // how much of the ambiguity band is really needed: distance from the threshold at which the
@@ -319,7 +406,16 @@ static void check_after_evaluate(
   if (hold(c, "message.names_quantity", starts, "message_mismatch", params, wit) && st_ok) {
     hold(c, "message.matching_verdict", announced != 0 && (announced & acc) != 0, "message_mismatch", params, wit);
   }
-  hold(c, "info.printed_value", rep.info.begin()->second == printed, "info_value_mismatch", params, wit);
+  bool info_ok = rep.info.begin()->second == printed;
+  if (g_locale_case) {
+    hold(c, "info.fresh_stream_under_global_locale", info_ok, "info_value_locale", params, wit);
+  } else if (g_after_library_printer) {
+    hold(c, "info.after_library_printer", info_ok, "info_value_after_library_printer", params, wit);
+    ++tally().cats["eval_after_library_printer"];
+  } else {
+    hold(c, "info.printed_value", info_ok, "info_value_mismatch", params, wit);
+  }
+  g_after_library_printer = false;
 }
 
 static void check_after_timeout(vh::Ctx & c, const CaseDesc & d, const DiagnosticReport & rep)
@@ -527,7 +623,26 @@ static void neighbour_calls(vh::Rng & r)
           cat("interleaved_wgs84_print");
           break;
         }
-      case 3: setReportInfo(scratch, "many_digits", 1.2345678901234567 * r.logu(1e-8, 1e8)); break;
+      case 3: {
+          setReportInfo(scratch, "many_digits", 1.2345678901234567 * r.logu(1e-8, 1e8));
+          // the other printers of the library, through the library's own toStringInfoValue / setReportInfo
+          switch ((int)r.range(0, 7)) {
+            case 0: {Twist2D t; t.angularSpeed = r.uni(); t.linearSpeeds << r.uni(), 1e-7 * r.uni(); setReportInfo(scratch, "twist2d", t); break;}
+            case 1: {Twist3D t; t.linearSpeeds.setConstant(r.uni() * 1e5); t.angularSpeeds.setConstant(r.uni()); (void)toStringInfoValue(t); break;}
+            case 2: {Pose2D q; q.yaw = r.uni(-3.0, 3.0); q.position << r.uni() * 1e3, r.uni(); setReportInfo(scratch, "pose2d", q); break;}
+            case 3: {Position2D q; q.position << r.uni() * 1e3, r.uni(); setReportInfo(scratch, "position2d", std::optional<Position2D>(q)); break;}
+            case 4: {PoseAndTwist2D q; q.pose.yaw = r.uni(); q.twist.angularSpeed = r.uni(); (void)toStringInfoValue(q); break;}
+            case 5: {Pose3D q; q.position.setConstant(r.uni() * 1e4); q.orientation.setConstant(r.uni()); setReportInfo(scratch, "pose3d", q); break;}
+            case 6: {PoseAndTwist3D q; q.pose.position.setConstant(r.uni()); q.twist.linearSpeeds.setConstant(r.uni()); (void)toStringInfoValue(q); break;}
+            default: {
+                Eigen::Matrix3d m = Eigen::Matrix3d::Constant(r.uni() * 1e6); Eigen::Vector3d x(r.uni(), 1e-9 * r.uni(), 1e9 * r.uni());
+                setReportInfo(scratch, "matrix", m); (void)toStringInfoValue(x.transpose().format(Eigen::IOFormat(Eigen::FullPrecision)));
+                break;
+              }
+          }
+          cat("interleaved_library_geometry_eigen_print");
+          break;
+        }
       case 4: setReportInfo(scratch, "opt", r.coin() ? std::optional<double>(r.uni() * 1e-5) : std::optional<double>()); break;
       case 5: setReportInfo(scratch, "text", std::string("some text")); setReportInfo(scratch, "int", (int)r.range(-100000, 100000)); break;
       case 6: setReportInfo(scratch, "status", ST[r.range(0, 3)]); (void)toStringInfoValue(Diagnostic(ST[r.range(0, 3)], "m")); break;
@@ -545,6 +660,7 @@ static void neighbour_calls(vh::Rng & r)
   }
   cat("interleaved_neighbour_printing");
   g_neighbours_called_in_process = true;
+  g_after_library_printer = true;
 }
 
 template<class T> static void after_neighbours_cat(T v)
@@ -705,11 +821,19 @@ template<class T> static void threshold_case(vh::Ctx & c, vh::Rng & r, int kind)
       d.band = 8 * (LD)std::numeric_limits<T>::epsilon() * m;
     }
   }
+  if constexpr (!std::is_integral<T>::value) {
+    const LD MX = (LD)std::numeric_limits<T>::max();
+    if (c.caller_rounding != FE_TONEAREST && (d.lo < -MX || d.hi > MX)) {
+      d.sat = true; d.lo_sat = std::max(d.lo, -MX); d.hi_sat = std::min(d.hi, MX);
+    }
+  }
   std::string cname = std::string(KN[kind]) + "_" + Tr<T>::nm();
   c.cat(cname);
   cat(s.exact ? "regime_exact" : "regime_generic");
   if (s.e == 0) {cat("epsilon_zero");}
 
+  LocaleCaseGuard locale_guard;
+  begin_locale_case(c, r);
   Diagnostic init = d.custom_initial ? Diagnostic(ST[r.range(0, 3)], "initial message is OK, low, high") : Diagnostic();
   std::unique_ptr<Checkup<T>> chk = make_checkup<T>(kind, d.ctor_mode, d.name, s.t, s.e, d.custom_initial, init);
   const Checkup<T> & cchk = *chk;                 // getReport() through the const interface
@@ -748,7 +872,7 @@ template<class T> static void threshold_case(vh::Ctx & c, vh::Rng & r, int kind)
       if (have_last) {
         const DiagnosticReport & again = cchk.getReport();
         bool same = same_report(again, last_rep);
-        if (same) {++tally().oracles["stability.report_unchanged_by_other_objects"];} else hold(c, "stability.report_unchanged_by_other_objects", same, "observation_changed",
+        if (same && c.caller_rounding == FE_TONEAREST) {++tally().oracles["stability.report_unchanged_by_other_objects"];} else hold(c, "stability.report_unchanged_by_other_objects", same, "observation_changed",
           [&]() {return vh::Params{{"checkup", (double)d.kind}, {"scalar", (double)d.scalar}, {"step", (double)d.steps.size()}};},
           [&]() {return vh::J().raw("case", d.json()).raw("before", report_json(last_rep)).raw("after", report_json(again)).str();});
       }
@@ -776,10 +900,18 @@ template<class T> static void threshold_case(vh::Ctx & c, vh::Rng & r, int kind)
         d.steps.push_back({0, (LD)v, tag});
         after_neighbours_cat<T>(v);
         int form = r.coin(0.7) ? 0 : (int)r.range(1, 3);
+        maybe_switch_locale(r, 0.4, "locale_switched_between_steps");
+        const std::string expected = expected_info<T>(v);        // before the call: the stream of "now"
         const DiagnosticStatus & ret = do_evaluate<T>(*chk, v, form);
+        maybe_switch_locale(r, 0.3, "locale_switched_between_evaluate_and_getReport");
         last_rep = (i & 1) ? cchk.getReport() : chk->getReport(); have_last = true;
         int acc = acceptable(kind, (LD)v, d.lo, d.hi, d.band);
-        check_after_evaluate(c, d, (LD)v, acc, ret, last_rep, Tr<T>::print(v));
+        d.step_overflow_ambiguous = false;
+        if (d.sat && single(acc)) {
+          int a2 = acc | verdict(kind, (LD)v, d.lo_sat, d.hi_sat) | verdict(kind, (LD)v, d.lo_sat, d.hi) | verdict(kind, (LD)v, d.lo, d.hi_sat);
+          if (a2 != acc) {acc = a2; d.step_overflow_ambiguous = true; cat("directed_rounding_threshold_overflow_at_max_value");}
+        }
+        check_after_evaluate(c, d, (LD)v, acc, ret, last_rep, expected);
         count("threshold_evaluations");
         if (tag == TAG_ON) {cat("value_on_threshold");} else if (tag == TAG_ABOVE1) {cat("value_one_ulp_above");} else if (tag == TAG_BELOW1) {
           cat("value_one_ulp_below");
@@ -806,7 +938,7 @@ template<class T> static void threshold_case(vh::Ctx & c, vh::Rng & r, int kind)
         run_steps(hold_at, L);
         other_objects();
         bool same = same_report(held, snapshot);
-        if (same) {++tally().oracles["stability.held_report_unchanged_by_later_calls"];} else hold(c, "stability.held_report_unchanged_by_later_calls", same, "result_not_stable",
+        if (same && c.caller_rounding == FE_TONEAREST) {++tally().oracles["stability.held_report_unchanged_by_later_calls"];} else hold(c, "stability.held_report_unchanged_by_later_calls", same, "result_not_stable",
           [&]() {return vh::Params{{"checkup", (double)d.kind}, {"scalar", (double)d.scalar}, {"held_after_step", (double)hold_at}};},
           [&]() {return vh::J().raw("case", d.json()).raw("when_obtained", report_json(snapshot)).raw("at_end", report_json(held)).str();});
         cat("held_report_across_later_calls");
@@ -841,6 +973,8 @@ static void reliability_case(vh::Ctx & c, vh::Rng & r)
   if (low == high) {cat("reliability_equal_thresholds");}
   d.ctor_mode = r.coin(0.6) ? CT_LVALUES : (int)r.range(1, 3);
   if (d.ctor_mode == CT_ALIAS_T_E) {high = low; d.e = d.hi = low; cat("reliability_equal_thresholds");}
+  LocaleCaseGuard locale_guard;
+  begin_locale_case(c, r);
   std::unique_ptr<CheckupReliability> chkp;
   switch (d.ctor_mode) {
     case CT_TEMPORARIES: chkp.reset(new CheckupReliability(std::string(d.name), double(low), double(high))); cat("construct_from_temporaries"); break;
@@ -897,7 +1031,7 @@ static void reliability_case(vh::Ctx & c, vh::Rng & r)
       if (have_last) {
         const DiagnosticReport & again = cchk.getReport();
         bool same = same_report(again, last_rep);
-        if (same) {++tally().oracles["stability.report_unchanged_by_other_objects"];} else hold(c, "stability.report_unchanged_by_other_objects", same, "observation_changed",
+        if (same && c.caller_rounding == FE_TONEAREST) {++tally().oracles["stability.report_unchanged_by_other_objects"];} else hold(c, "stability.report_unchanged_by_other_objects", same, "observation_changed",
           [&]() {return vh::Params{{"checkup", (double)d.kind}, {"scalar", (double)d.scalar}, {"step", (double)d.steps.size()}};},
           [&]() {return vh::J().raw("case", d.json()).raw("before", report_json(last_rep)).raw("after", report_json(again)).str();});
       }
@@ -913,15 +1047,18 @@ static void reliability_case(vh::Ctx & c, vh::Rng & r)
         d.steps.push_back({0, (LD)v, tag});
         after_neighbours_cat<double>(v);
         DiagnosticStatus st;
+        maybe_switch_locale(r, 0.4, "locale_switched_between_steps");
+        const std::string expected = expected_info<double>(v);
         switch (r.coin(0.7) ? 0 : (int)r.range(1, 2)) {
           case 1: st = chk.evaluate(double(v)); cat("evaluate_temporary"); break;
           case 2: {auto hv = std::make_unique<double>(v); st = chk.evaluate(*hv); *hv = -7; hv.reset(); cat("evaluate_then_free_argument"); break;}
           default: st = chk.evaluate(v); break;
         }
         const DiagnosticStatus & ret = st;
+        maybe_switch_locale(r, 0.3, "locale_switched_between_evaluate_and_getReport");
         last_rep = (i & 1) ? cchk.getReport() : chk.getReport(); have_last = true;
         int acc = v < low ? V_LOW : (v < high ? V_UNCERTAIN : V_OK);
-        check_after_evaluate(c, d, (LD)v, acc, ret, last_rep, Tr<double>::print(v));
+        check_after_evaluate(c, d, (LD)v, acc, ret, last_rep, expected);
         count("threshold_evaluations");
         if (tag == TAG_ON) {cat("value_on_threshold");} else if (tag == TAG_ABOVE1) {cat("value_one_ulp_above");} else if (tag == TAG_BELOW1) {
           cat("value_one_ulp_below");
@@ -940,7 +1077,7 @@ static void reliability_case(vh::Ctx & c, vh::Rng & r)
         run_steps(hold_at, L);
         other_objects();
         bool same = same_report(held, snapshot);
-        if (same) {++tally().oracles["stability.held_report_unchanged_by_later_calls"];} else hold(c, "stability.held_report_unchanged_by_later_calls", same, "result_not_stable",
+        if (same && c.caller_rounding == FE_TONEAREST) {++tally().oracles["stability.held_report_unchanged_by_later_calls"];} else hold(c, "stability.held_report_unchanged_by_later_calls", same, "result_not_stable",
           [&]() {return vh::Params{{"checkup", (double)d.kind}, {"scalar", (double)d.scalar}, {"held_after_step", (double)hold_at}};},
           [&]() {return vh::J().raw("case", d.json()).raw("when_obtained", report_json(snapshot)).raw("at_end", report_json(held)).str();});
         cat("held_report_across_later_calls");
